@@ -176,6 +176,7 @@ type Profile struct {
 	Pools        bool
 	Finish       bool
 	Stall        bool
+	Probe        string
 }
 
 var defaultKinds = []string{"sts", "dp", "tapp", "foo", "bare"}
@@ -202,6 +203,17 @@ func profileFor(prop string) Profile {
 		p.Policies = []string{"", "immutable", "never", "never"}
 	case "C09":
 		p.Reload, p.Reserve = true, true
+		p.Probe = "memcheck"
+	case "C05":
+		p.Probe = "memcheck"
+		p.Reload, p.AdminRelease = true, true
+	case "C06":
+		p.Probe = "c06"
+		p.Ranges = true
+		p.Reload = true
+	case "C11":
+		p.Probe = "c11"
+		p.AdminRelease = true
 	case "C19":
 		p.Faults, p.Crash, p.Relist, p.Reload, p.AdminRelease, p.AdminList, p.PoolAPI, p.Reserve, p.Ranges, p.Collect = true, false, true, true, true, true, true, true, true, true
 		p.Cloud = 2
@@ -262,6 +274,11 @@ type World struct {
 	unsched map[string]bool
 	M       *modelState
 	taskSeq int
+	probe            *probeState
+	wantProbe        string
+	probeSeq         int
+	probeFaultsSaved bool
+	lostReplies      int
 }
 
 func (w *World) fail(oracle, key, format string, a ...interface{}) {
@@ -431,6 +448,15 @@ func (w *World) onPodMutate(m *simkube.Mutation) {
 }
 
 func (w *World) onFipMutate(m *simkube.Mutation) {
+	if w.probe != nil && w.probe.entry != nil {
+		ip, key := "", ""
+		if m.Old != nil {
+			ip, key = m.Old.Name, decodeFip(m.Old).Key
+		} else {
+			ip, key = m.New.Name, decodeFip(m.New).Key
+		}
+		w.probe.fipMut = append(w.probe.fipMut, m.Verb+" "+ip+" "+key)
+	}
 	w.oracleOnFip(m)
 }
 
@@ -505,6 +531,7 @@ func (w *World) Handle(t *core.Task, r *core.Req) core.Resp {
 		}
 		if w.galaxyTask(t) && w.lostNow(r) {
 			w.S.Stat("fault.api.lost-reply")
+			w.lostReplies++
 			w.S.Sig("F:lost:" + r.Op)
 			return core.Resp{Code: simkube.CodeServerTimeout, Msg: "simulated: reply lost"}
 		}
@@ -602,6 +629,40 @@ func (w *World) handleReport(t *core.Task, r *core.Req) core.Resp {
 		return core.Resp{}
 	case "w.resynced", "w.reloaded", "w.queuelen", "w.collected":
 		return core.Resp{}
+	case "w.probe.filtered":
+		var fr filterReport
+		_ = json.Unmarshal(r.B, &fr)
+		if w.probe != nil {
+			w.probe.fr = &fr
+			w.onProbeFiltered(w.probe)
+		}
+		if fr.Err != "" || len(fr.Nodes) == 0 {
+			return core.Resp{}
+		}
+		return core.Resp{Msg: fr.Nodes[w.C.Choose(len(fr.Nodes))]}
+	case "w.probe.bound":
+		var br bindReport
+		_ = json.Unmarshal(r.B, &br)
+		if w.probe != nil {
+			w.probe.br = &br
+		}
+		return core.Resp{}
+	case "w.probe.page", "w.probe.post":
+		var hr httpReport
+		_ = json.Unmarshal(r.B, &hr)
+		if w.probe != nil {
+			if r.Op == "w.probe.page" {
+				w.probe.pages = append(w.probe.pages, hr)
+			} else {
+				w.probe.post = &hr
+			}
+		}
+		return core.Resp{}
+	case "w.probe.entry":
+		if w.probe != nil {
+			_ = json.Unmarshal(r.B, &w.probe.entry)
+		}
+		return core.Resp{}
 	}
 	return core.Resp{Code: 400, Msg: "unknown report " + r.Op}
 }
@@ -685,6 +746,9 @@ func (w *World) Actions() []core.Action {
 	if !w.ready {
 		return nil
 	}
+	if pa, ok := w.probeActions(); ok {
+		return pa
+	}
 	// informer deliveries (one handler at a time per informer)
 	for _, kind := range w.K.PendingKinds() {
 		kind := kind
@@ -700,6 +764,10 @@ func (w *World) Actions() []core.Action {
 		// the actors around galaxy-ipam are slower than galaxy-ipam itself: an operation is offered only every
 		// opGap scheduling steps (a per-run swarm parameter) unless nothing else can run
 		calm := len(w.S.Enabled()) == 0 && len(acts) == 0
+		if w.wantProbe != "" {
+			// a probe is waiting for quiescence: no new operations, no time jumps
+			return acts
+		}
 		if w.opsLeft > 0 && (calm || w.S.Steps-w.lastOpStep >= w.opGap) {
 			acts = append(acts, core.Action{Name: "op", Do: func() { w.lastOpStep = w.S.Steps; w.doOp() }})
 		} else if w.opsLeft > 0 {
@@ -777,6 +845,9 @@ func (w *World) Idle() bool {
 		// nothing else to do: restart now
 		w.startProcess()
 		return true
+	}
+	if w.probe != nil {
+		return w.probeIdle()
 	}
 	if !w.ready {
 		// init is blocked on a timer (configmap poll)
